@@ -79,7 +79,7 @@ def calc_surface_energy(asig, travel_times, nodal=True, up_red=1., down_red=1., 
         travel_times = np.array([travel_times])
     else:
         travel_times = np.array(travel_times)
-    shifts = 2 * travel_times / asig.dt
+    shifts = 2.0 * travel_times / asig.dt
     max_shift = int(np.max(shifts))
     up_wave = np.pad(asig.values, (0, max_shift), mode='constant', constant_values=0)
     dshifted = np.arange(asig.npts + max_shift)[np.newaxis, :] - shifts[:, np.newaxis]  # TODO: not needed if shifts is scalar
@@ -190,7 +190,7 @@ def get_time_shift_motions(asig, travel_times, nodal=True, up_red=1., down_red=1
         travel_times = np.array([travel_times])
     else:
         travel_times = np.array(travel_times)
-    shifts = 2 * travel_times / asig.dt
+    shifts = 2.0 * travel_times / asig.dt
     max_shift = int(np.max(shifts))
     up_wave = np.pad(asig.values, (0, max_shift), mode='constant', constant_values=0)
     dshifted = np.arange(asig.npts + max_shift)[np.newaxis, :] - shifts[:, np.newaxis]  # TODO: not needed if shifts is scalar
